@@ -76,7 +76,8 @@ Theorem C01_vi_eps_optimal_partial :
 Proof. exact vi_value_eps_half. Qed.
 Print Assumptions C01_vi_eps_optimal_partial.
 
-(* not proved: eps-optimality of the policies returned by vi / mpi; lp (oracle + correspondence) *)
+(* full statement: the value is within eps/2 of v* and the returned greedy policy is eps-optimal
+   (its exact value vsig satisfies 0 <= v* - vsig <= eps in every state) *)
 Definition C01_vi_eps_optimal_full : Prop :=
   forall d : ddp Q, ddp_ok d -> stoch d -> ddp_distinct d ->
   forall v_init eps cap vstar vsig,
@@ -86,7 +87,11 @@ Definition C01_vi_eps_optimal_full : Prop :=
   evaluate_policy d (vi_sigma (value_iteration d v_init eps cap)) = Some vsig ->
   forall s, (s < d_n d)%nat ->
     Qabs (nth s (vi_v (value_iteration d v_init eps cap)) 0 - nth s vstar 0) < eps / 2 /\
-    nth s vstar 0 - nth s vsig 0 <= eps.
+    0 <= nth s vstar 0 - nth s vsig 0 <= eps.
+Theorem C01_vi_eps_optimal : C01_vi_eps_optimal_full.
+Proof. exact vi_policy_eps_optimal. Qed.
+Print Assumptions C01_vi_eps_optimal.
+
 (* modified policy iteration that stops on its span test (tolerance eps(1-beta)/beta, inf for beta = 0),
    with the midrange correction: |v - v*| < eps/2 *)
 Theorem C01_mpi_eps_optimal_partial :
@@ -107,7 +112,11 @@ Definition C01_mpi_eps_optimal_full : Prop :=
   modified_policy_iteration d v_init eps cap k = Some (v, sigma, it, true) ->
   length vstar = d_n d -> (forall s, (s < d_n d)%nat -> Tv_at d vstar s == nth s vstar 0) ->
   evaluate_policy d sigma = Some vsig ->
-  forall s, (s < d_n d)%nat -> Qabs (nth s v 0 - nth s vstar 0) < eps / 2 /\ nth s vstar 0 - nth s vsig 0 <= eps.
+  forall s, (s < d_n d)%nat ->
+    Qabs (nth s v 0 - nth s vstar 0) < eps / 2 /\ 0 <= nth s vstar 0 - nth s vsig 0 <= eps.
+Theorem C01_mpi_eps_optimal : C01_mpi_eps_optimal_full.
+Proof. exact mpi_policy_eps_optimal. Qed.
+Print Assumptions C01_mpi_eps_optimal.
 
 (* ---- hypotheses are satisfiable: Puterman's example with a duplicated (tied) action and a -inf pair ---- *)
 Definition ex_d : ddp Q :=
@@ -141,6 +150,9 @@ Proof. vm_compute. reflexivity. Qed.
 Example ex_d_mpi_stops :
   exists v sg it, modified_policy_iteration ex_d None (1#10) 250 20 = Some (v, sg, it, true).
 Proof. vm_compute. eexists _, _, _. reflexivity. Qed.
+Example ex_d_vi_policy_value :
+  evaluate_policy ex_d (vi_sigma (value_iteration ex_d None (1#10) 250)) = Some [9; -2].
+Proof. vm_compute. reflexivity. Qed.
 Example ex_d_vi_stops :
   vi_stopped (value_iteration ex_d None (1#10) 250) = true.
 Proof. vm_compute. reflexivity. Qed.
